@@ -143,7 +143,15 @@ class WireInterp(Interp):
             if r is False:
                 continue
             if "guard" in arm:
-                raise Unsupported("match guard")
+                e_g = dict(env)
+                self.bind(arm["pat"], t, e_g)
+                g = self.eval(arm["guard"], e_g)
+                if g[0] == "c":
+                    g = bool(g[1])
+                if g is False:
+                    continue
+                if g is not True:
+                    r = g if r is True else ("and", (r, g))
 
             def thunk(e2, arm=arm):
                 self.bind(arm["pat"], t, e2)
